@@ -21,13 +21,52 @@ Proof.
   rewrite (IH (S k)) by exact Hf. now rewrite Nat2N.inj_succ.
 Qed.
 
+(* the other way of writing the loop: a running place value that is doubled each step and OR-ed into the total *)
+Lemma lor_pow2 : forall x k, 0 <= x < 2 ^ k -> 0 <= k -> Z.lor x (2 ^ k) = x + 2 ^ k.
+Proof.
+  intros x k Hx Hk.
+  assert (HL : Z.land x (2 ^ k) = 0).
+  { apply Z.bits_inj'. intros n Hn. rewrite Z.land_spec, Z.bits_0, Z.pow2_bits_eqb by exact Hk.
+    destruct (k =? n) eqn:E; [|apply andb_false_r]. apply Z.eqb_eq in E. subst n.
+    assert (Ht : Z.testbit x k = false)
+      by (apply Z.testbit_false; [exact Hk | rewrite Z.div_small by exact Hx; reflexivity]).
+    now rewrite Ht. }
+  rewrite <- (Z.lxor_lor _ _ HL). symmetry. now apply Z.add_nocarry_lxor.
+Qed.
+
+Lemma running_fold : forall (f : Z * Z -> Z -> Z * Z) (l : list Z) (k : nat) (t : N),
+  (forall (t : N) (k : nat) (j : Z), (t < 2 ^ N.of_nat k)%N ->
+     f (Z.of_N t, 2 ^ Z.of_nat k) j =
+     (Z.of_N (if truthy j then (t + N.shiftl 1 (N.of_nat k))%N else t), 2 ^ Z.of_nat (S k))) ->
+  (t < 2 ^ N.of_nat k)%N ->
+  fst (fold_left f l (Z.of_N t, 2 ^ Z.of_nat k)) = Z.of_N (b2i_loop l (N.of_nat k) t).
+Proof.
+  intros f l. induction l as [|j l IH]; intros k t Hf Ht; [reflexivity|].
+  cbn [fold_left b2i_loop]. rewrite Hf by exact Ht. rewrite <- Nat2N.inj_succ. apply IH; [exact Hf|].
+  rewrite N.shiftl_1_l, Nat2N.inj_succ, N.pow_succ_r'. destruct (truthy j); lia.
+Qed.
+
 Theorem src_bits_to_int_agrees : forall bits : list Z, src_bits_to_int bits = Z.of_N (bits_to_int bits).
 Proof.
   intros bits. cbv beta zeta delta [src_bits_to_int bits_to_int src_enumerate].
-  apply (enumerate_fold_from _ (rev bits) 0 0%N).
-  intros t i j. cbv beta iota. unfold truthy.
-  destruct (negb (j =? 0)); [|reflexivity].
-  rewrite N2Z.inj_add, shiftl_1_nat. reflexivity.
+  first
+  [ (* enumerate + 1 << shift *)
+    apply (enumerate_fold_from _ (rev bits) 0 0%N);
+    intros t i j; cbv beta iota; unfold truthy;
+    repeat match goal with |- context [if ?c then _ else _] => destruct c eqn:? end;
+    rewrite ?N2Z.inj_add, ?shiftl_1_nat; first [reflexivity | lia]
+  | (* running place value *)
+    match goal with |- (let '(a, _) := fold_left ?f _ _ in a) = _ =>
+      change (fst (fold_left f (rev bits) (Z.of_N 0, 2 ^ Z.of_nat 0)) = Z.of_N (b2i_loop (rev bits) (N.of_nat 0) 0)) end;
+    apply running_fold; [|reflexivity];
+    intros t k j Ht; cbv beta iota; unfold truthy;
+    assert (Hp : 2 ^ Z.of_nat k + 2 ^ Z.of_nat k = 2 ^ Z.of_nat (S k))
+      by (rewrite Nat2Z.inj_succ, Z.pow_succ_r by lia; lia);
+    assert (Hl : Z.lor (Z.of_N t) (2 ^ Z.of_nat k) = Z.of_N t + 2 ^ Z.of_nat k)
+      by (apply lor_pow2; [|lia]; split; [lia|];
+          change 2 with (Z.of_N 2); rewrite <- nat_N_Z, <- N2Z.inj_pow; lia);
+    repeat match goal with |- context [if ?c then _ else _] => destruct c eqn:? end;
+    rewrite ?Hl, ?Hp, ?N2Z.inj_add, ?N.shiftl_1_l, ?N2Z.inj_pow, ?nat_N_Z; first [reflexivity | congruence | (f_equal; lia)] ].
 Qed.
 
 Lemma bind_ok_id : forall {A} (m : res A), bind m (fun r => Ok r) = m.
@@ -50,12 +89,18 @@ Theorem src_binary_rule_agrees : forall (nb : list Z) (rule : rule_form) (sch : 
   src_binary_rule nb rule sch pows = binary_rule nb rule sch pows.
 Proof.
   intros nb rule sch pows. cbv beta zeta delta [src_binary_rule binary_rule].
+  autounfold with src_helpers. cbv beta zeta.
+  (* the table size, written 2 ** len(..) or 1 << len(..) *)
+  rewrite ?Z.shiftl_1_l.
   replace (Z.pow 2 (Z.of_nat (length nb))) with (Z.of_nat (Nat.pow 2 (length nb)))
     by (rewrite Nat2Z.inj_pow; reflexivity).
-  destruct pows as [p|]; rewrite ?src_bits_to_int_agrees, ?zeqb_nat; [destruct (length p =? length nb)%nat|];
-    destruct rule as [r|l]; cbn [bind]; rewrite ?src_int_to_bits_agrees, ?zeqb_nat;
-    try (destruct (int_to_bits r (2 ^ length nb)) as [arr|e]; cbn [bind]);
-    try (destruct (length l =? 2 ^ length nb)%nat; cbn [bind]);
-    destruct sch; rewrite ?bind_ok_id;
-    first [reflexivity | cbv beta iota delta [negb]; f_equal; lia].
+  (* every shape of the control flow: split on the tagged arguments and on every test, resolve the calls *)
+  destruct pows as [p|]; destruct rule as [r|l]; destruct sch; cbn [bind];
+    rewrite ?src_bits_to_int_agrees, ?src_int_to_bits_agrees, ?zeqb_nat;
+    repeat (match goal with
+            | |- context [int_to_bits ?a ?b] => destruct (int_to_bits a b) eqn:?
+            | |- context [if ?c then _ else _] => destruct c eqn:?
+            end; cbn [bind negb]; rewrite ?src_int_to_bits_agrees, ?zeqb_nat);
+    rewrite ?bind_ok_id;
+    first [reflexivity | congruence | (f_equal; lia) | (exfalso; lia)].
 Qed.
